@@ -414,6 +414,9 @@ def run(model: Model, rep, tier: str) -> None:
 _QU = "skfem/mesh/mesh_quad_1.py"
 _HE = "skfem/mesh/mesh_hex_1.py"
 MUTANTS = [
+    ("oriented() overwrites a vertex instead of swapping",
+     ("skfem/mesh/mesh_simplex.py", "        t[1, flip] = t0\n",
+      "        t[1, flip] = t1\n"), "C18-R1"),
     ("restrict keeps the old named boundaries",
      (FM, "            t=t,\n            _boundaries=new_boundaries,\n"
       "            _subdomains=new_subdomains,", "            t=t,\n"
@@ -477,7 +480,12 @@ MUTANTS = [
       "        p = self.p\n        for i, arg in enumerate(args):"),
      "C18-R4"),
 ]
+_SWAP = ("        t0 = t[0, flip]\n        t1 = t[1, flip]\n"
+         "        t[0, flip] = t1\n        t[1, flip] = t0\n")
 TWINS = [
+    ("oriented() swaps the two rows with one sliced assignment",
+     ("skfem/mesh/mesh_simplex.py", _SWAP,
+      "        t[:2, flip] = t[1::-1, flip]\n")),
     ("hexahedron split lists its tetrahedra in another order",
      (_HE, "            self.t[[0, 1, 3, 4]],\n            self.t[[0, 3, 2, "
       "4]],", "            self.t[[0, 3, 2, 4]],\n            self.t[[0, 1, "
